@@ -48,6 +48,21 @@ pub fn drive(ctx: &mut Ctx) {
 	like!(ctx, "VecDeque<T>/&[T]", VecDeque<u64> => &[u64], Vec<u64>, |b| b.iter().cloned().collect());
 	like!(ctx, "&[T]/VecDeque<T>", &[u8] => VecDeque<u8>, VecDeque<u8>, |b| { b.make_contiguous(); b.as_slices().0 });
 	like!(ctx, "VecDeque<T> self", VecDeque<bool> => VecDeque<bool>, VecDeque<bool>, |b| b.clone());
+	// a wrapped ring buffer with non-primitive elements (the per-item path walks both physical slices)
+	like!(ctx, "VecDeque<String>/Vec<String> wrapped", VecDeque<String> => Vec<String>, Vec<String>, |b| {
+		let mut d: VecDeque<String> = VecDeque::with_capacity(b.len().max(2));
+		let h = b.len() / 2;
+		for x in &b[h..] { d.push_back(x.clone()) }
+		for x in b[..h].iter().rev() { d.push_front(x.clone()) }
+		d
+	});
+	like!(ctx, "VecDeque<(u8,Option<u16>)>/&[..] wrapped", VecDeque<(u8, Option<u16>)> => &[(u8, Option<u16>)], Vec<(u8, Option<u16>)>, |b| {
+		let mut d: VecDeque<(u8, Option<u16>)> = VecDeque::with_capacity(b.len().max(2));
+		let h = (b.len() + 1) / 2;
+		for x in &b[h..] { d.push_back(*x) }
+		for x in b[..h].iter().rev() { d.push_front(*x) }
+		d
+	});
 	#[cfg(feature = "bytes")]
 	{
 		like!(ctx, "Bytes/Vec<u8>", bytes::Bytes => Vec<u8>, Vec<u8>, |b| bytes::Bytes::from(b.clone()));
@@ -87,6 +102,10 @@ pub fn drive(ctx: &mut Ctx) {
 		like!(ctx, "zst/Box<zst>", (EV1, u8) => (Box<EV1>, u8), (Box<EV1>, u8), |b| (EV1::V1, b.1));
 		like!(ctx, "zst/Rc<zst>", (EV1, u16) => (Rc<EV1>, u16), (Rc<EV1>, u16), |b| (EV1::V1, b.1));
 		like!(ctx, "Vec<zst>/Vec<Arc<zst>>", Vec<EV1> => Vec<Arc<EV1>>, Vec<Arc<EV1>>, |b| b.iter().map(|_| EV1::V1).collect());
+		// slices of zero-sized items that still have a one-byte encoding, against the collections they alias
+		like!(ctx, "&[(zst,)]/LinkedList<zst>", &[(EV1,)] => LinkedList<EV1>, LinkedList<EV1>, |b| leak_vec(b.iter().map(|_| (EV1::V1,)).collect()));
+		like!(ctx, "&[zst]/Vec<zst>", &[EV1] => Vec<EV1>, Vec<EV1>, |b| leak_vec(b.clone()));
+		like!(ctx, "&[(u8,zst)]/BTreeMap<u8,zst>", &[(u8, EV1)] => BTreeMap<u8, EV1>, BTreeMap<u8, EV1>, |b| leak_vec(b.iter().map(|(k, _)| (*k, EV1::V1)).collect()));
 		like!(ctx, "&derive/derive", &EPlain => EPlain, EPlain, |b| &b);
 		like!(ctx, "Vec<&derive>/Vec<derive>", Vec<&SCompact> => Vec<SCompact>, Vec<SCompact>, |b| b.iter().collect());
 	}
